@@ -267,3 +267,40 @@ async fn register_snaptun_identity_handler(
         psk_share: [0u8; 32].to_vec(),
     }))
 }
+
+/// Verification hooks (cargo feature `verif-hooks`, default off, add-only): direct access to the private
+/// `RegisterSnapTunIdentity` handler for the /verif correspondence harness.
+#[cfg(feature = "verif-hooks")]
+pub mod verif {
+    use std::{net::SocketAddr, sync::Arc};
+
+    use axum::{
+        Extension,
+        extract::{ConnectInfo, State},
+    };
+    use axum_connect_rpc::extractor::ConnectRpc;
+    use snap_tokens::AnyClaims;
+
+    use super::model::SnapTunIdentityRegistry;
+    use crate::proto::anapaya::snap::v1::RegisterSnapTunIdentityRequest;
+
+    /// Runs [`super::register_snaptun_identity_handler`] exactly as the router does after the auth
+    /// middleware has attached the verified claims: returns the PSK share of the response, or the
+    /// error message of the Connect-RPC error.
+    pub async fn register_snaptun_identity(
+        identity_registry: Arc<dyn SnapTunIdentityRegistry>,
+        claims: AnyClaims,
+        remote: SocketAddr,
+        request: RegisterSnapTunIdentityRequest,
+    ) -> Result<Vec<u8>, String> {
+        super::register_snaptun_identity_handler(
+            State(identity_registry),
+            Extension(claims),
+            ConnectInfo(remote),
+            ConnectRpc(request),
+        )
+        .await
+        .map(|ConnectRpc(response)| response.psk_share)
+        .map_err(|err| err.message)
+    }
+}
